@@ -238,6 +238,25 @@ func runC18(t *testing.T, c ByteCase) (*h.Violation, h.Info) {
 	if err != nil {
 		return h.V("put-accepts-any-bytes", "Put of %d bytes (%s) after the newest version was deleted: %v", len(val), c.Class, err), info
 	}
+	// ... and as a version that has neighbours: an older version is deleted and a newer one is put
+	// afterwards - the version in between still holds exactly what was put
+	if _, err := cl.Put(ctx, "mid", []byte("oldest version of mid")); err != nil {
+		return h.V("harness", "put: %v", err), info
+	}
+	m2, err := cl.Put(ctx, "mid", []byte("second version of mid"))
+	if err != nil {
+		return h.V("harness", "put: %v", err), info
+	}
+	mv, err := cl.Put(ctx, "mid", append([]byte{}, val...))
+	if err != nil {
+		return h.V("put-accepts-any-bytes", "Put of %d bytes (%s) as a third version: %v", len(val), c.Class, err), info
+	}
+	if err := cl.DeleteVersion(ctx, "mid", m2); err != nil {
+		return h.V("harness", "delete-version %d: %v", m2, err), info
+	}
+	if _, err := cl.Put(ctx, "mid", []byte("a newer version of mid, put after an older one was deleted")); err != nil {
+		return h.V("harness", "put: %v", err), info
+	}
 	same := func(where string, got []byte, err error) *h.Violation {
 		if err != nil {
 			return h.V("bytes-round-trip-unchanged", "%s: %v", where, err)
@@ -253,6 +272,10 @@ func runC18(t *testing.T, c ByteCase) (*h.Violation, h.Info) {
 	}
 	sv, err = cl.GetVersion(ctx, "s", ver)
 	if v := same("Client.GetVersion", valOf(sv), err); v != nil {
+		return v, info
+	}
+	sv, err = cl.GetVersion(ctx, "mid", mv)
+	if v := same("Client.GetVersion of a version whose older neighbour was deleted and after which another was put", valOf(sv), err); v != nil {
 		return v, info
 	}
 	sv, err = cl.GetVersion(ctx, "fresh", fv)
@@ -369,7 +392,7 @@ func orEmpty(b []byte) []byte {
 
 var c18 = &h.Campaign[ByteCase]{
 	Prop: "C18", Sub: "roundtrip",
-	Rule:  "rapid: byte strings by class (empty, ASCII, text with leading/inner/trailing White_Space code points, whitespace only, look-alikes that are not White_Space, invalid UTF-8 with and without surrounding whitespace, NULs, random binary, 64 KiB - 4 MiB patterns) put through setec.Client into the real handlers and database (one case in four: first while the state directory is unavailable - must fail - then again), with a Store + FileCache already running on a longer earlier version; read back by get / get-version / conditional get, from a database re-opened right after the acknowledgement and again later, through a Store handle, GetString, the FileCache document (decoded by the harness's own codec), a Store restarted from that cache with an unreachable service, and a FileClient on that cache (non-empty values); non-trivial = invalid UTF-8, surrounding whitespace, or >= 64 KiB; distinct by (class, bytes)",
+	Rule:  "rapid: byte strings by class (empty, ASCII, text with leading/inner/trailing White_Space code points, whitespace only, look-alikes that are not White_Space, invalid UTF-8 with and without surrounding whitespace, NULs, random binary, 64 KiB - 4 MiB patterns) put through setec.Client into the real handlers and database (one case in four: first while the state directory is unavailable - must fail - then again), with a Store + FileCache already running on a longer earlier version; read back by get / get-version / conditional get, from a database re-opened right after the acknowledgement and again later, through a Store handle, GetString, the FileCache document (decoded by the harness's own codec), a Store restarted from that cache with an unreachable service, and a FileClient on that cache (non-empty values); also as a version whose older neighbour is deleted and after which another version is put; non-trivial = invalid UTF-8, surrounding whitespace, or >= 64 KiB; distinct by (class, bytes)",
 	Quick: 500, Thorough: 60000,
 	Gen: func(rt *rapid.T) ByteCase {
 		c := genBytes(rt)
